@@ -81,14 +81,12 @@ func init() {
 
 	register(
 		// --- the two array primitives -------------------------------------------------------
-		Site{Module: mod, Pkg: pkg, Func: "insertOne", Name: "insertOneBody", Kind: Custom,
-			Custom: allOf(stmtsAre("insertOne", "", []string{"copy(a[idx+1:],a[idx:])", "a[idx]=x"}))},
+		present("insertOne", "insertOneShifts", "", "copy(a[idx+1:], a[idx:])"),
+		present("insertOne", "insertOneWrites", "", "a[idx] = x"),
 		lo("insertOne", "insertOneDstLo", "call[copy][0].arg[0]", I("idx"), map[string]string{"idx": "idx"}),
 		lo("insertOne", "insertOneSrcLo", "call[copy][0].arg[1]", I("idx"), map[string]string{"idx": "idx"}),
 		present("removeOne", "removeOneShifts", "", "copy(a[idx:], a[idx+1:])"),
 		present("removeOne", "removeOneZeroesLast", "", "a[len(a)-1] = zero"),
-		Site{Module: mod, Pkg: pkg, Func: "removeOne", Name: "removeOneOrder", Kind: Custom,
-			Custom: allOf(stmtsInOrder("removeOne", []string{"copy(a[idx:],a[idx+1:])", "varzeroT"}))},
 
 		// --- insertIntoLeaf ------------------------------------------------------------------
 		hi("btree.insertIntoLeaf", "leafInsertKeysHi", "call[insertOne][0].arg[0]", I("n"), xn),
@@ -159,13 +157,7 @@ func init() {
 		present("btree.rotateRight", "rotateRightInsertsKey", "", "insertOne(right.keys[:], 0, oldSepK)"),
 		present("btree.rotateRight", "rotateRightInsertsValue", "", "insertOne(right.values[:], 0, oldSepV)"),
 		present("btree.rotateRight", "rotateRightInsertsChild", "", "insertOne(right.children[:], 0, child)"),
-		Site{Module: mod, Pkg: pkg, Func: "btree.rotateRight", Name: "rotateRightOrder", Kind: Custom,
-			Custom: allOf(stmtsInOrder("btree.rotateRight", []string{
-				"child:=left.children[left.n]",
-				"left.parent.keys[idxInParent]=left.keys[left.n-1]",
-				"left.parent.values[idxInParent]=left.values[left.n-1]",
-				"left.n--",
-				"right.n++"}))},
+		present("btree.rotateRight", "rotateRightIncRight", "", "right.n++"),
 
 		// --- rotateLeft (steal from the right sibling) -----------------------------------------------------
 		present("btree.rotateLeft", "rotateLeftShiftsKeys", "", "removeOne(right.keys[:], 0)"),
@@ -175,12 +167,7 @@ func init() {
 		e("btree.rotateLeft", "rotateLeftValueIdx", "index[left.values][0].idx", "Int", I("ln"), leftN),
 		e("btree.rotateLeft", "rotateLeftChildIdx", "index[left.children][0].idx", "Int", I("ln"), leftN),
 		e("btree.rotateLeft", "rotateLeftSepIdx", "index[right.parent.keys][0].idx", "Int", I("idx"), idxP),
-		Site{Module: mod, Pkg: pkg, Func: "btree.rotateLeft", Name: "rotateLeftOrder", Kind: Custom,
-			Custom: allOf(stmtsInOrder("btree.rotateLeft", []string{
-				"child:=right.children[0]",
-				"right.parent.keys[idxInParent-1]=right.keys[0]",
-				"right.parent.values[idxInParent-1]=right.values[0]",
-				"right.n--",
-				"left.n++"}))},
+		present("btree.rotateLeft", "rotateLeftDecRight", "", "right.n--"),
+		present("btree.rotateLeft", "rotateLeftIncLeft", "", "left.n++"),
 	)
 }
